@@ -53,7 +53,11 @@ func (t *Topology) Update(p *Peer) error {
 func (t *Topology) Delete(p *Peer) error {
 	t.Lock()
 	defer t.Unlock()
-	l := t.m[p.Meta.Role]
+	l, ok := t.m[p.Meta.Role]
+	if !ok {
+		// nobody with that role ever joined: nothing to delete
+		return nil
+	}
 	l.Delete(p)
 
 	return nil
@@ -70,6 +74,8 @@ func (t *Topology) Get(kind string) *PeerList {
 // Each list is built excluding all the nodes in the list l, shuffling the result,
 // and taking the n elements from the head of the list.
 func (t *Topology) Each(n int, l *PeerList) *PeerList {
+	t.Lock()
+	defer t.Unlock()
 	var p PeerList
 
 	for _, list := range t.m {
